@@ -30,7 +30,9 @@ func init() {
 				New: "\t\tif claimedUncompressedSize <= 0 {", Expect: "claimed-zero-exactly"},
 			{Name: "frame-cap-lifted", File: pkgCodec + "/decoder.go",
 				Old: "\tif length < 0 || length > MaximumFrameLength {", New: "\tif length < 0 {", Expect: "frame-bounded"},
-			{Name: "no-exact-size-probe", File: pkgCodec + "/decoder.go",
+			{Name: "zlib-close-result-dropped", File: pkgCodec + "/decoder.go",
+			Old: "\treturn decompressed, d.zrd.Close()", New: "\t_ = d.zrd.Close()\n\treturn decompressed, nil", Expect: "inflate-status"},
+		{Name: "no-exact-size-probe", File: pkgCodec + "/decoder.go",
 				Old: "\tif n, _ := io.ReadFull(d.zrd, extra[:]); n != 0 {", New: "\tif n := len(extra) - 1; n != 0 {", Expect: "exact-size"},
 			{Name: "serverbound-cap-8mib", File: pkgCodec + "/decoder.go",
 				Old: "\tif d.direction == proto.ServerBound {\n\t\tmaxSize = ServerboundUncompressedCap\n\t}", New: "\tif d.direction == proto.ClientBound {\n\t\tmaxSize = ServerboundUncompressedCap\n\t}", Expect: "inflate-bounded"},
@@ -215,7 +217,7 @@ func runC02(c *Ctx) {
 		}
 		// the fill
 		for _, ci := range callsIn(dc, func(nm string, cc *ssa.CallCommon) bool { return nm == "io.ReadFull" }) {
-			if _, isMS := strip(ci.Common().Args[1]).(*ssa.MakeSlice); isMS {
+			if cellHolds(ci.Common().Args[1], isMakeSlice) {
 				fill = ci
 			}
 		}
@@ -255,20 +257,33 @@ func runC02(c *Ctx) {
 				return used
 			}
 			miss := false
+			nSucc := 0
+			var dropped ssa.Instruction
 			for _, r := range returnsOf(dc) {
 				if r.Block() == dc.Recover || !flowsTo(fill, r) {
 					continue
 				}
 				// success return: first result is the buffer
-				if _, isMS := strip(retVal(r, 0)).(*ssa.MakeSlice); !isMS {
+				if !cellHolds(retVal(r, 0), isMakeSlice) {
 					continue
 				}
+				nSucc++
 				// every path fill → this return passes a probe
 				rr := reachAvoidingInstrs(fill, isProbe)
 				if rr[r.Block()] {
 					miss = true
 				}
+				// the inflater's terminal status (checksum / truncated trailer) is part of the verdict: the
+				// returned error comes from the zlib reader's Close, or the probe's own error is tested
+				if !terminalStatusConsumed(dc, r, isProbe) {
+					dropped = r
+				}
 			}
+			if nSucc == 0 {
+				c.Undecided("exact-size", "decompress", "no success return (returning the inflated buffer) found")
+			}
+			c.Check("inflate-status", "zlib-terminal-error@decompress", dropped, dropped == nil,
+				"the success return does not carry the zlib reader's terminal status (Close() result or the probe's error): a body with a corrupt or truncated trailer is accepted although the reference decoder rejects it")
 			c.Check("exact-size", "probe-after-fill@decompress", fill, !miss,
 				"after filling the claimed-size buffer the inflater is not probed for more output: a body that inflates to more than the claimed size is truncated and accepted")
 		}
